@@ -41,7 +41,7 @@ import pyref as R  # noqa: E402
 
 INTERNAL_SKS = (3, 11, R.b2i(hashlib.sha256(b"C06/internal/1").digest()) % R.N_ORDER)   # 11: odd-Y point (negated in the seckey tweak)
 PREFIXES = ((None, "bcrt"), ("--addrprefix=tb", "tb"), ("-pbc", "bc"), ("--addrprefix=bcrt", "bcrt"))
-SWEEP_PATTERNS = ("distinct", "equal", "alt", "spelled", "emptyleaf", "zeroprefix")   # zeroprefix: sibling leaf hashes that both start with a zero byte, in both orders   # spelled: leaves given as bracketed text with an inline function (same bytes as their hex form); emptyleaf: leaf 0 is the empty script
+SWEEP_PATTERNS = ("distinct", "equal", "alt", "spelled", "emptyleaf", "zeroprefix", "decimal")   # zeroprefix: sibling leaf hashes that both start with a zero byte, in both orders   # spelled: leaves given as bracketed text with an inline function (same bytes as their hex form); emptyleaf: leaf 0 is the empty script
 RT_PATTERNS = ("csig", "csigarg", "csep")             # leaves <pk_i> OP_CHECKSIG  /  OP_DROP <pk_i> OP_CHECKSIG with one spend argument
 PLACEHOLDER = bytes(range(16)) * 4
 SPEND_ARG = "0x2a"
@@ -126,6 +126,8 @@ def spelling_for(pattern, i, script):
     """how leaf i is written on tap's command line"""
     if pattern == "emptyleaf" and not script:
         return "0x"
+    if pattern == "decimal":
+        return str(int.from_bytes(script, "little"))   # a digits-only token is a number for the tools: the leaf is its script-number encoding
     if pattern == "spelled":
         # a version-0 segwit address of the 20-byte value (odd leaves) / its plain hex in brackets (even leaves)
         if i & 1:
@@ -143,6 +145,11 @@ def scripts_for(pattern, n):
         return list(_alt_list(1024 + 2)[:n])
     if pattern == "spelled":
         return [bytes([20]) + _prog20(i) + bytes([0x6D, 0x51]) for i in range(n)]     # <20 bytes> OP_2DROP OP_1
+    if pattern == "decimal":
+        # OP_DROP OP_NOP*a OP_1 (OP_VERIFY OP_1)*b, at most 8 bytes with a last byte below 0x80: the little-endian bytes of a positive 64-bit
+        # number, which is how the leaf is written on the command line (20853 = 75 51 = OP_DROP OP_1)
+        shapes = [(a_, b_) for b_ in range(4) for a_ in range(7) if a_ + 2 * b_ + 2 <= 8]
+        return [b"\x75" + b"\x61" * a_ + b"\x51" + b"\x69\x51" * b_ for a_, b_ in shapes[:n]]
     if pattern == "emptyleaf":
         return [b""] + [_s(i, 0x2000) for i in range(1, n)]       # the empty script is a legal leaf: it leaves the signature item as the (true) result
     if pattern == "zeroprefix":
@@ -163,9 +170,9 @@ def make_jobs(tier):
     for ki in range(len(INTERNAL_SKS)):
         for pi in range(len(PREFIXES)):
             for pat in SWEEP_PATTERNS:
-                for n in range(1, (min(b["N"], 8 if tier == "quick" else 16) if pat in ("spelled", "emptyleaf", "zeroprefix") else b["N"]) + 1):
+                for n in range(1, (min(b["N"], 8 if tier == "quick" else 16) if pat in ("spelled", "emptyleaf", "zeroprefix", "decimal") else b["N"]) + 1):
                     jobs.append(dict(ki=ki, pattern=pat, n=n, pi=pi, indices=list(range(n))))
-                for n in (() if pat in ("spelled", "emptyleaf", "zeroprefix") else b["big"]):
+                for n in (() if pat in ("spelled", "emptyleaf", "zeroprefix", "decimal") else b["big"]):
                     if tier == "quick" and not (ki == 0 and pi == 0 and pat == "distinct"):
                         continue
                     jobs.append(dict(ki=ki, pattern=pat, n=n, pi=pi, indices=big_indices(n)))
